@@ -113,6 +113,7 @@ func (t *Collection) closeCollection() { // Just "close" is a keyword.
 func (t *Collection) GetItem(key []byte, withValue bool) (i *Item, err error) {
 	rnl := t.rootAddRef()
 	defer t.rootDecRef(rnl)
+	verifYield(1)
 	n := rnl.root
 	for {
 		nNode, err := n.read(t.store)
@@ -207,6 +208,7 @@ func (t *Collection) SetItem(item *Item) (err error) {
 	if err != nil {
 		return err
 	}
+	verifYield(2)
 	rnlNew := t.mkRootNodeLoc(r)
 	// Can't reclaim n right now because r might point to n.
 	rnlNew.reclaimLater[0] = t.reclaimMarkUpdate(nloc,
@@ -261,6 +263,7 @@ func (t *Collection) Delete(key []byte) (wasDeleted bool, err error) {
 	if err != nil {
 		return false, err
 	}
+	verifYield(2)
 	rnlNew := t.mkRootNodeLoc(r)
 	// Can't reclaim immediately due to readers.
 	rnlNew.reclaimLater[0] = t.reclaimMarkUpdate(left,
@@ -637,6 +640,7 @@ func (t *Collection) VisitItemsAscendEx(target []byte, withValue bool,
 	visitor ItemVisitorEx) error {
 	rnl := t.rootAddRef()
 	defer t.rootDecRef(rnl)
+	verifYield(1)
 
 	var prevVisitItem *Item
 	var errCheckedVisitor error
@@ -665,6 +669,7 @@ func (t *Collection) VisitItemsDescendEx(target []byte, withValue bool,
 	visitor ItemVisitorEx) error {
 	rnl := t.rootAddRef()
 	defer t.rootDecRef(rnl)
+	verifYield(1)
 
 	_, err := t.store.visitNodes(t, rnl.root,
 		target, withValue, visitor, 0, descendChoice)
@@ -683,6 +688,7 @@ func descendChoice(cmp int, n *node) (bool, *nodeLoc, *nodeLoc) {
 func (t *Collection) GetTotals() (numItems uint64, numBytes uint64, err error) {
 	rnl := t.rootAddRef()
 	defer t.rootDecRef(rnl)
+	verifYield(1)
 	n := rnl.root
 	nNode, err := n.read(t.store)
 	if err != nil || n.isEmpty() || nNode == nil {
@@ -800,6 +806,7 @@ func (t *Collection) rootCAS(prev, next *rootNodeLoc) bool {
 	if prev != nil {
 		prev.superseded = true
 	}
+	verifEvent(2, next)
 
 	if prev != nil && prev.refs > 2 {
 		// Since the prev is in-use, hook up its chain to disallow
@@ -820,6 +827,7 @@ func (t *Collection) rootAddRef() *rootNodeLoc {
 	t.rootLock.Lock()
 	defer t.rootLock.Unlock()
 	t.root.refs++
+	verifEvent(1, t.root)
 	return t.root
 }
 
@@ -836,6 +844,7 @@ func (t *Collection) rootDecRefUnlocked(r *rootNodeLoc) {
 	if r.refs > 0 {
 		return
 	}
+	verifEvent(3, r)
 	if r.chainedCollection != nil && r.chainedRootNodeLoc != nil {
 		r.chainedCollection.rootDecRefUnlocked(r.chainedRootNodeLoc)
 	}
